@@ -56,8 +56,8 @@ PROPS = {
     'C11': dict(units=['loop'], level='proof', trusted_base=TB_LOOP, assumptions=AS_LOOP, witness=None, rests_on=['C09']),
     'C12': dict(units=['loop'], level='proof', trusted_base=TB_LOOP, assumptions=AS_LOOP, witness=None),
     'C20': dict(units=['loop'], level='proof', trusted_base=TB_LOOP, assumptions=AS_LOOP, witness=None),
-    'C14': dict(units=['converter', 'mapper', 'glue'], level='proof', trusted_base=TB_MAPPER + TB_CONV[4:], assumptions=AS_CONV + AS_MAPPER, witness=None),
-    'C13': dict(units=['converter'], level='proof', trusted_base=TB_CONV, assumptions=AS_CONV, witness=None),
+    'C14': dict(units=['converter', 'mapper', 'glue'], level='proof', trusted_base=TB_MAPPER + TB_CONV[4:], assumptions=AS_CONV + AS_MAPPER, witness='loader'),
+    'C13': dict(units=['converter'], level='proof', trusted_base=TB_CONV, assumptions=AS_CONV, witness='loader'),
     'C17': dict(units=['udev'], level='proof', extras=['udev_enum'], witness=None,
                 trusted_base=TB_COMMON[:2] + [
                     'the specification of systemd\'s ExecStart parsing in /verif/spec/sd.rs (written from systemd.syntax(7) / systemd.service(5): word splitting at unquoted whitespace, quotes, C-style escapes, lone `;`, %% and $$); octal and \\U escapes are treated as not accepted, which only makes the oracle stricter',
